@@ -88,14 +88,14 @@ class Prop:
             "StopTraversal/StopIteration} x per-node flavour (returned or raised, class or instance) x start (whole tree or one node); "
             "every case runs Tree.filtered, Tree.copy(predicate=), Tree.filter or Node.filtered, Node.copy(predicate=), "
             "Node.copy(add_self=False, predicate=), Node.filter and logs every predicate call.  quick: every ordered forest <= 3 nodes x all "
-            "6^n verdict assignments x all starts, 4-5 nodes sampled per (shape, start), random 6-14 nodes (clones at non-adjacent positions); thorough: <= 4 "
+            "6^n verdict assignments x all starts, 4-5 nodes sampled per (shape, start), random 6-14 nodes (clones, sometimes directly below their original); thorough: <= 4 "
             "nodes exhaustive, 5 sampled, more random.  distinct = distinct (shape, labels, verdicts, start); non-trivial = a non-empty "
             "proper subset of the scanned nodes is kept")
     exhaustive_note = "all forest shapes <= N nodes x all 6^n verdict assignments x all starts (N=3 quick, 4 thorough)"
     assumptions = [
         "identity of nodes is the allocation index recorded by a harness-side wrapper of Node.__init__",
-        "siblings never carry equal-comparing data (list.remove(self) is an equality search: D02, owned by C01/C04) and a node never "
-        "carries its parent's data (the D24 leaf would collide: UniqueConstraintError); default data_ids, plain Tree (D20-D22 are C07's)",
+        "siblings never carry equal-comparing data (list.remove(self) is an equality search: D02, owned by C01/C04; the library refuses "
+        "such siblings for default data_ids anyway); default data_ids, plain Tree (D20-D22 are C07's)",
         "a bare control class returned (not raised) by the predicate is outside the quantifier",
     ]
     manifest = dict(
@@ -157,8 +157,8 @@ class Prop:
             yield from self._exhaustive(4, rng, sample=30)
             yield from self._exhaustive(5, rng, sample=6)
         else:
-            yield from self._exhaustive(5, rng, sample=150)
-        nrand = 300 if tier == "quick" else 3000
+            yield from self._exhaustive(5, rng, sample=100)
+        nrand = 300 if tier == "quick" else 2000
         weights = [3, 4, 1, 1, 1, 0.4]
         for _ in range(nrand):
             n = rng.randint(6, 14)
@@ -231,12 +231,14 @@ class Prop:
         else:
             forms = [lambda: start.filtered(pred), lambda: start.copy(predicate=pred),
                      lambda: start.copy(add_self=False, predicate=pred)]
-        copies, new_trees, call_logs = [], [], []
+        copies, new_trees, call_logs, raw_logs = [], [], [], []
         for fn in forms:
             o, t2, lg = copy_obs(fn)
             copies.append(o)
             new_trees.append(t2)
-            call_logs.append(lg)
+            raw_logs.append(lg)
+            call_logs.append([-1] if t2 is None else lg)   # the log of a call that raised is judged by the oracle only
+        snap["raw_logs"] = raw_logs
         # the same entry points without a predicate: plain copies, ValueError
         def err_of(fn):
             try:
@@ -269,7 +271,7 @@ class Prop:
                     nontrivial=0 < info["kept"] < nsc,
                     key=H.digest([shape_shape(desc["nodes"]), labels(desc["nodes"]), desc["verdicts"], desc["start"]]),
                     stats=dict(nodes=len(nodes), scope=nsc, kept=info["kept"], stop_hit=info["stop_hit"],
-                               start="tree" if start is None else "node", d24_leaves=info["d24"],
+                               start="tree" if start is None else "node", d24_leaves=info["d24"], d24_collision=info["d24_collision"],
                                raised=sum(1 for k in range(len(nodes)) if desc["flavours"][k] in RAISED.get(desc["verdicts"][k], ()))))
 
     # ----- the property statement, executed on the pointer snapshot (not F's recursion)
@@ -317,12 +319,16 @@ class Prop:
         for n in scope:
             if any(a is s for s in selected for a in ancestors(n)):
                 kept.add(id(n))
-        info = dict(scope=len(scope), kept=len(kept), stop_hit=bool(stops), d24=0)
+        info = dict(scope=len(scope), kept=len(kept), stop_hit=bool(stops), d24=0, d24_collision=False)
 
         # every call of the predicate: the reached nodes up to and including the first stop
         exp_calls = [nid(n) for n in reached if pos[id(n)] <= first_stop]
         for k, lg in enumerate(call_logs):
-            if lg != exp_calls:
+            if lg == [-1]:      # the call raised: what it asked before must be a prefix of the expected calls
+                raw = snap["raw_logs"][k]
+                if raw != exp_calls[:len(raw)]:
+                    return f"calls: form {k} called the predicate on {raw} before raising, expected a prefix of {exp_calls}", None, info
+            elif lg != exp_calls:
                 return f"calls: form {k} called the predicate on {lg}, expected {exp_calls}", None, info
 
         # in place: exactly the kept nodes (and everything outside the scope), once each, original order, original parents
@@ -383,8 +389,18 @@ class Prop:
         doubled = exp_copy(top, True)
         info["d24"] = count_nodes(doubled) - count_nodes(plain)
         d24_seen = False
+        # add_child refuses two siblings with one data_id: with the D24 leaves the tree the copying form builds
+        # can contain such a pair on a legal input (an accepted node with a kept child carrying the node's own data)
+        def sib_dup(forest):
+            dids = [repr(x[1]) for x in forest]
+            return len(set(dids)) != len(dids) or any(sib_dup(x[2]) for x in forest)
+
         for k, o in enumerate(copies):
             if o and o[0] == -1:
+                if o[1] == 1 and sib_dup(wrap(k, doubled)) and not sib_dup(wrap(k, plain)):
+                    d24_seen = True
+                    info["d24_collision"] = True
+                    continue
                 return f"copy form {k}: raised error class {o[1]}", None, info
             got = strip(o)
             if not fresh(new_trees[k], nodes):
@@ -396,6 +412,9 @@ class Prop:
                 continue
             alt = "" if doubled == plain else f" (or, with the D24 leaves, {wrap(k, doubled)})"
             return f"copy form {k}: got {got} expected {wrap(k, plain)}{alt}", None, info
+        if info.get("d24_collision"):
+            return ("D24: the leaf copy of an accepted node collides with a kept child that carries the node's own data: "
+                    "UniqueConstraintError from the copying form on a legal input; in place as specified"), "D24", info
         if d24_seen:
             return (f"D24: copying form adds {info['d24']} leaf copies (visited nodes answered True / SkipBranch(and_self=False) "
                     f"receive a copy of themselves as first child); otherwise as specified"), "D24", info
@@ -472,14 +491,17 @@ def untag(nodes):
     return [[n[0][0], n[1], n[2], untag(n[3])] for n in nodes]
 
 
-def add_clones(nodes, rng, p=0.2):
+def add_clones(nodes, rng, p=0.2, pc=0.25):
     """Re-label some nodes with the label of an earlier node (a clone), never
-    next to an equal label: not among siblings, not parent/child."""
+    among siblings; a node gets its parent's label (legal; the region where D24
+    makes the copying form raise) with probability pc per node."""
     seen = []
 
     def go(ns, parent_label):
         for k, n in enumerate(ns):
-            if seen and rng.random() < p:
+            if parent_label is not None and rng.random() < pc * p and parent_label not in {m[0] for m in ns}:
+                n[0] = parent_label
+            elif seen and rng.random() < p:
                 cand = rng.choice(seen)
                 sib = {m[0] for m in ns}
                 kid = {m[0] for m in n[3]}
@@ -511,6 +533,13 @@ def _corpus():
     out.append(dict(univ=univ, nodes=nodes, verdicts=vs2, flavours=[0, 0, 0, 2, 0, 0, 0, 0], start=None))
     vs3 = list(vs); vs3[3] = V_STOP
     out.append(dict(univ=univ, nodes=nodes, verdicts=vs3, flavours=[0, 0, 0, 3, 0, 0, 0, 0], start=None))
+    # D24 on a legal input with a clone below its original: filtered() raises UniqueConstraintError
+    pc_nodes = [[0, None, None, [[0, None, None, []]]]]
+    out.append(dict(univ=["s:A"], nodes=pc_nodes, verdicts=[V_TRUE, V_TRUE], flavours=[0, 0], start=None))
+    pc3 = [[0, None, None, [[0, None, None, [[1, None, None, []]]], [2, None, None, []]]]]
+    out.append(dict(univ=["s:A", "s:b", "s:c"], nodes=pc3, verdicts=[V_TRUE, V_FALSE, V_TRUE, V_TRUE], flavours=[0] * 4, start=None))
+    out.append(dict(univ=["s:A", "s:b", "s:c"], nodes=pc3, verdicts=[V_TRUE, V_FALSE, V_FALSE, V_TRUE], flavours=[0] * 4, start=None))
+    out.append(dict(univ=["s:A", "s:b", "s:c"], nodes=pc3, verdicts=[V_KEEPSELF, V_TRUE, V_TRUE, V_TRUE], flavours=[0] * 4, start=None))
     # D05: SkipBranch(and_self=False) after a removal was collected for the same parent
     out.append(D05_WITNESS)
     # D25: stop in the in-place form keeps the unscanned rest / drops pending removals
